@@ -466,6 +466,8 @@ pub fn explore(rep: &Report, prop: &str, th: bool) -> Explored {
         DevLong(usize, usize, usize),
         /// flush sequences on a medium input: (input, cfg, entry)
         FlushSeq(usize, usize, usize),
+        /// boundary-straddling run inputs under a few schedules: (input, cfg)
+        Straddle(usize, usize),
     }
     let chunks_s: Vec<u32> = vec![0, 1, 2, REST];
     let caps_s: Vec<u32> = vec![1, 5, LARGE];
@@ -525,6 +527,19 @@ pub fn explore(rep: &Report, prop: &str, th: bool) -> Explored {
             }
         }
     }
+    let straddle = corpus::straddle_inputs(th);
+    let straddle_cfgs: Vec<Cfg> = vec![
+        Cfg { level: 2, strat: 3, zlib: false, wbits: 15, ctor: 0 },
+        Cfg { level: 6, strat: 3, zlib: true, wbits: 15, ctor: 0 },
+        Cfg { level: 1, strat: 3, zlib: false, wbits: 15, ctor: 0 },
+        Cfg { level: 6, strat: 0, zlib: false, wbits: 15, ctor: 0 },
+        Cfg { level: 1, strat: 0, zlib: true, wbits: 15, ctor: 0 },
+    ];
+    for i in 0..straddle.len() {
+        for c in 0..straddle_cfgs.len() {
+            work.push(Work::Straddle(i, c));
+        }
+    }
     for i in 0..long.len() {
         for c in 0..cfgs.len().min(if th { 6 } else { 4 }) {
             if !th && (i + c) % 2 != 0 {
@@ -538,7 +553,7 @@ pub fn explore(rep: &Report, prop: &str, th: bool) -> Explored {
     let accs = par_for(work.len(), || Acc { secs: [0.0; 3], stats: Stats::default(), cov: BTreeMap::new(), runs: 0 }, |ix, acc| {
         watchdog::tick(ix as u64, 0);
         let t0 = std::time::Instant::now();
-        let kidx = match work[ix] { Work::Full(..) => 0, Work::DevMed(..) | Work::FlushSeq(..) => 1, Work::DevLong(..) => 2 };
+        let kidx = match work[ix] { Work::Full(..) => 0, Work::DevMed(..) | Work::FlushSeq(..) | Work::Straddle(..) => 1, Work::DevLong(..) => 2 };
         match work[ix] {
             Work::Full(i, c, e, a0) => {
                 let m = CompModel { prop, input: &small[i].1, name: &small[i].0, cfg: cfgs[c], entry: entries[e], rep: &rep, chunks: chunks_s.clone(), caps: caps_s.clone(), flushes: flushes_s.clone(), cov: Mutex::new(BTreeMap::new()), ffi_every: 5 };
@@ -636,6 +651,19 @@ pub fn explore(rep: &Report, prop: &str, th: bool) -> Explored {
                             }
                         }
                     }
+                }
+                acc.runs += 1;
+                for (k, v) in m.cov.lock().unwrap().iter() {
+                    *acc.cov.entry(k).or_insert(0) += v;
+                }
+            }
+            Work::Straddle(i, c) => {
+                let m = CompModel { prop, input: &straddle[i].data, name: &straddle[i].name, cfg: straddle_cfgs[c], entry: Entry::Compress, rep: &rep, chunks: vec![], caps: vec![], flushes: vec![], cov: Mutex::new(BTreeMap::new()), ffi_every: 7 };
+                // one-shot, window-sized chunks, chunks ending exactly at / just past the boundary
+                for pol in [Act { k: REST, cap: LARGE, flush: F_NONE }, Act { k: 32768, cap: LARGE, flush: F_NONE }, Act { k: 32777, cap: 1000, flush: F_NONE }, Act { k: 4096, cap: 85195, flush: F_NONE }] {
+                    let mut ds = DevSearch::new(&m, pol, vec![], 1_000_000, u64::MAX);
+                    ds.run(m.init(), 0);
+                    acc.stats.merge(&ds.stats);
                 }
                 acc.runs += 1;
                 for (k, v) in m.cov.lock().unwrap().iter() {
